@@ -89,6 +89,92 @@ def charge_audit(ck, gvh):
                               "result_len": outlen})
 
 
+# ---------------------------------------------------------------------------------------------------
+# Pairing audit: "every require/release pairing on every exit path".  The memory counter of golua never goes
+# down because of garbage collection; the only decrements are ReleaseMem calls that give back what the same
+# operation required earlier (call frames, temporary buffers, the AST and IR of a chunk being loaded).  So the
+# counter after a COMPLETED operation is never below the counter before it: a negative difference means that some
+# path released more than it required (and the saturating counter would hide it near zero).  Each shape runs
+# K times twice; the shapes cover the exit paths of a call frame and of load().
+PAIR_SETUP = (
+    "local ctx=runtime.context local function mem() return ctx().used.memory end "
+    "local u1,u2,u3,u4,u5,u6,u7,u8=1,2,3,4,5,6,7,8 "
+    "local function f(flag) local x=1 if flag then return function() return x end end return u1+u2+u3+x end "
+    "local function f8(flag) local x,y=1,2 if flag then return function() return x+y end end return u1+u2+u3+u4+u5+u6+u7+u8+x+y end "
+    "local function g(a,...) return select('#',...)+a+u1 end "
+    "local function h(n) if n==0 then return u1 end return h(n-1) end "
+    "local function ht(n) local x=n if n==0 then return u1+u2 end if false then return function() return x end end return ht(n-1) end "
+    "local function e() local y=u2 if u1 then error(y) end return function() return y end end "
+    "local function et() local y=u2 if u1 then error({}) end return function() return y end end "
+    "local mt=setmetatable({},{__index=function(t,k) local z=k if u3 then return u3 end return function() return z end end,"
+    "__call=function(self,a) return a+u1 end,__add=function(a,b) local w=u1 if w then return w end return function() return w end end}) "
+    "local function cl() local z<close> = setmetatable({},{__close=function() local q=u1 end}) return u1 end "
+    "local function clerr() local z<close> = setmetatable({},{__close=function() error('c') end}) return u1 end "
+    "local function co1() local c=coroutine.wrap(function(a) local x=a+u1 local b=coroutine.yield(x) if false then return function() return x end end return b+u2 end) c(1) return c(2) end "
+    "local function co2() local c=coroutine.create(function() local x=u1 coroutine.yield() return function() return x end end) coroutine.resume(c) return coroutine.close(c) end "
+    "local function co3() local c=coroutine.create(function() local x=u1 error('e') return function() return x end end) return coroutine.resume(c) end "
+    "local function meth() local o={v=u1} function o:m(a) local s=self if a then return s.v+u2 end return function() return s end end return o:m(1) end "
+    "local function va(...) local n=select('#',...) local x=n if n<0 then return function() return x end end return n+u1 end "
+    "local function gt() local i=0 ::top:: i=i+1 do local x=i if i>5 then return x+u1 end if false then return function() return x end end end goto top end "
+    "local function forin() local s=0 for k,v in next,{1,2,3} do local x=v s=s+x+u1 if false then return function() return x end end end return s end "
+    "local SRC_OK='local a,b=1,2 return function() return a+b end' local SRC_SYN='x = = 1' "
+    "local SRC_GOTO='goto nolabel '..string.rep(' ',500) local SRC_BRK='break '..string.rep(' ',500) "
+    "local SRC_ATTR='local x <const> = 1; x = 2 '..string.rep(' ',500) local SRC_VARARG='local function q() return ... end '..string.rep(' ',500) "
+    "local SRC_BIG='return '..string.rep('1+',400)..'1' "
+)
+PAIR_SHAPES = [
+    ("frame-upvalues-and-own-cell", "f(false)"), ("frame-8-upvalues-2-cells", "f8(false)"), ("frame-creates-closure", "f(true)"),
+    ("varargs", "g(1,2,3,4)"), ("recursion", "h(10)"), ("recursion-own-cells", "ht(10)"), ("tailcall", "(function(n) return h(n) end)(3)"),
+    ("error-through-pcall", "pcall(e)"), ("error-table-through-pcall", "pcall(et)"), ("error-through-xpcall", "xpcall(e,function(m) return m end)"),
+    ("index-metamethod", "local _=mt.x"), ("call-metamethod", "mt(3)"), ("arith-metamethod", "local _=mt+1"),
+    ("to-be-closed", "cl()"), ("to-be-closed-handler-error", "pcall(clerr)"),
+    ("coroutine-yield-resume", "co1()"), ("coroutine-closed-while-suspended", "co2()"), ("coroutine-dies-with-error", "co3()"),
+    ("method", "meth()"), ("vararg-frame", "va(1,2,3)"), ("goto-loop", "gt()"), ("for-in", "forin()"),
+    ("load-ok", "load(SRC_OK)"), ("load-syntax-error", "load(SRC_SYN)"), ("load-goto-without-label", "load(SRC_GOTO)"),
+    ("load-break-outside-loop", "load(SRC_BRK)"), ("load-assign-to-const", "load(SRC_ATTR)"), ("load-vararg-outside", "load(SRC_VARARG)"),
+    ("load-long-expression", "load(SRC_BIG)"), ("load-and-call", "load(SRC_OK)()()"),
+    ("string-temporaries", "local _=('a'):rep(50):upper():sub(2,10)"), ("format", "local _=string.format('%5d %s %q',1,'x','y')"),
+    ("table-concat", "local _=table.concat({'a','b','c'},',')"), ("sort-with-comparator", "table.sort({3,1,2},function(a,b) return a<b end)"),
+    ("gsub-function", "local _=('abc'):gsub('%w',function(c) return c..u1 end)"), ("tostring-tonumber", "local _=tonumber(tostring(12.5))"),
+    ("pack-unpack", "local _=string.unpack('<i4',string.pack('<i4',7))"), ("select-negative", "local _=select(-1,1,2,3)"),
+    ("dump-load", "local _=load(string.dump(f))"),
+]
+
+
+def pairing_audit(ck, gvh, K=60):
+    cases = []
+    for name, call in PAIR_SHAPES:
+        src = (PAIR_SETUP + "local pad=string.rep('x',200000) "
+               "local m0=mem() for k=1,%d do %s end local m1=mem() for k=1,%d do %s end local m2=mem() emit(m1-m0,m2-m1)" % (K, call, K, call))
+        cases.append((name, src))
+    lines = ["p%d %s cpu=%d mem=%d" % (j, hexs(src), BIG, 1 << 40) for j, (_, src) in enumerate(cases)]
+    outs = [parse(l) for l in vlib.run_lines_resilient(gvh, ["lua"], lines, per_case_timeout=30)]
+    table = {}
+    for (name, src), o in zip(cases, outs):
+        ck.case("pairing:" + name, True)
+        ck.count("pairing-audit")
+        tr = (o.get("trace") or [""])[0].split(",")
+        if o["status"] != "ok" or len(tr) < 2 or not all(x.startswith("i") for x in tr[:2]):
+            ck.violation("pairing audit program for %s did not run: %s" % (name, o["raw"][:300]), {"kind": "harness", "program": src})
+            continue
+        d1, d2 = int(tr[0][1:]), int(tr[1][1:])
+        table[name] = [d1, d2]
+        if d1 < 0 or d2 < 0:
+            k = ck.known_match(lambda kf: kf.get("match", {}).get("class") == "unpaired-release" and kf["match"].get("shape") == name)
+            if k:
+                ck.known_finding(k)
+            else:
+                ck.violation("%s: the accounted memory is %d bytes LOWER after %d completed operations than before them "
+                             "(a path releases more than it required)" % (name, -min(d1, d2), K),
+                             {"kind": "Go!=S", "engine": "lua", "program": src, "operation": call_of(name), "deltas": [d1, d2],
+                              "expected": "both differences >= 0: ReleaseMem only gives back what the same operation required"})
+    ck.cov["pairing_audit"] = table
+
+
+def call_of(name):
+    return dict(PAIR_SHAPES).get(name, "")
+
+
 def run(tier, seed):
     ck = vlib.Check("C06", tier, seed, level="proof")
     ok_obl = ck.obligations(PROP)
@@ -207,6 +293,7 @@ def run(tier, seed):
             ck.sample({"program": progs[i][1][:300], "limit_mem": M, "threshold": hi[i], "status": outs[k]["status"], "ctx": outs[k].get("X")})
 
     charge_audit(ck, gvh)
+    pairing_audit(ck, gvh)
 
     # ------------------------------------------------------------ amplification: charge before allocating
     amp = []
